@@ -23,7 +23,7 @@ type c14Case struct {
 }
 
 func genC14(t *rapid.T, allowInvalid bool) c14Case {
-	c := c14Case{Graph: gdsl.GenGraph(t, gdsl.Opts{MinMods: 1, MaxMods: 12, AllowInvalidInit: allowInvalid})}
+	c := c14Case{Graph: gdsl.GenGraph(t, gdsl.Opts{MinMods: 1, MaxMods: 12, AllowInvalidInit: allowInvalid, ParamsLikeNames: true})}
 	c.FSB = rapid.SampledFrom([]uint64{0, 0, 0, 1, 6}).Draw(t, "fsb")
 	c.Prod = rapid.Bool().Draw(t, "prod")
 	return c
